@@ -709,7 +709,87 @@ func (g *psiGuard) implies(v ssa.Value, val bool) bool {
 	if val && g.withLive && g.live(v) {
 		return true
 	}
+	if c, ok := v.(*ssa.Call); ok {
+		return g.helperImplies(c, val)
+	}
 	return false
+}
+
+// helperImplies: c calls a boolean predicate of the package on the same accumulator (a method or a function taking it first); the
+// predicate returning val implies the PSI test when every return of the predicate either returns a value that cannot be val without
+// the test holding, or is only reached over a justified edge of the predicate itself.
+func (g *psiGuard) helperImplies(c *ssa.Call, val bool) bool {
+	h := g.helper(c)
+	if h == nil || g.busyV[c] {
+		return false
+	}
+	g.busyV[c] = true
+	defer delete(g.busyV, c)
+	sub := g.sub(h)
+	n := 0
+	for _, b := range h.Blocks {
+		ret, ok := b.Instrs[len(b.Instrs)-1].(*ssa.Return)
+		if !ok {
+			continue
+		}
+		n++
+		if len(ret.Results) != 1 {
+			return false
+		}
+		if sub.implies(ret.Results[0], val) || sub.guarded(b) {
+			continue
+		}
+		return false
+	}
+	return n > 0
+}
+
+// helper resolves c to a package function with a body whose first argument is the accumulator and which returns one boolean.
+func (g *psiGuard) helper(c *ssa.Call) *ssa.Function {
+	h := c.Call.StaticCallee()
+	if h == nil || h.Pkg != g.a.P.SSAPkg || len(h.Blocks) == 0 || len(c.Call.Args) == 0 || len(h.Params) == 0 || c.Call.Args[0] != ssa.Value(g.x.recv) {
+		return nil
+	}
+	res := h.Signature.Results()
+	if res.Len() != 1 {
+		return nil
+	}
+	if bt, ok := res.At(0).Type().Underlying().(*types.Basic); !ok || bt.Info()&types.IsBoolean == 0 {
+		return nil
+	}
+	return h
+}
+
+// sub is the guard analysis of helper h: the accumulator is h's first parameter.
+func (g *psiGuard) sub(h *ssa.Function) *psiGuard {
+	x := *g.x
+	x.recv = h.Params[0]
+	return &psiGuard{a: g.a, x: &x, exists: g.exists, patVal: g.patVal, withLive: g.withLive, busyV: map[ssa.Value]bool{}, busyB: map[*ssa.BasicBlock]bool{}}
+}
+
+// liveIn counts the live program-map tests in f and in the boolean accumulator predicates it calls.
+func (g *psiGuard) liveIn(f *ssa.Function, seen map[*ssa.Function]bool) int {
+	if seen[f] {
+		return 0
+	}
+	seen[f] = true
+	n := 0
+	for _, b := range f.Blocks {
+		for _, in := range b.Instrs {
+			v, ok := in.(ssa.Value)
+			if !ok {
+				continue
+			}
+			if g.live(v) {
+				n++
+			} else if c, ok := v.(*ssa.Call); ok {
+				if h := g.helper(c); h != nil {
+					n += g.sub(h).liveIn(h, seen)
+				}
+			}
+		}
+	}
+	return n
 }
 
 // edgeJustified: the CFG edge from→to is a conditional edge whose condition value implies the PSI test.
@@ -786,14 +866,7 @@ func (a *A) psiTestLive() {
 		return
 	}
 	// live tests present in add
-	nlive := 0
-	for _, b := range x.add.Blocks {
-		for _, in := range b.Instrs {
-			if v, ok := in.(ssa.Value); ok && full.live(v) {
-				nlive++
-			}
-		}
-	}
+	nlive := full.liveIn(x.add, map[*ssa.Function]bool{})
 	var bad []string
 	if nlive == 0 {
 		bad = append(bad, "add contains no existsUnlocked(b.pid) call (or b.programMap.p[uint32(b.pid)] lookup) whose receiver is loaded from b.programMap in add itself")
@@ -849,6 +922,19 @@ func (a *A) psiTestLive() {
 				for _, arg := range y.Call.Args {
 					if bt, ok := arg.Type().Underlying().(*types.Basic); ok && bt.Info()&types.IsBoolean != 0 {
 						walk(arg)
+					}
+				}
+				// a predicate of the package: what its conditions and results read counts as read by the guard
+				if h := y.Call.StaticCallee(); h != nil && h.Pkg == a.P.SSAPkg && len(h.Blocks) > 0 && h != pc {
+					for _, hb := range h.Blocks {
+						switch t := hb.Instrs[len(hb.Instrs)-1].(type) {
+						case *ssa.If:
+							walk(t.Cond)
+						case *ssa.Return:
+							for _, r := range t.Results {
+								walk(r)
+							}
+						}
 					}
 				}
 			}
